@@ -342,5 +342,100 @@ def check(ctx: Ctx, col: Collector, tier: str) -> None:
             col.ok("C05.POSITIONS", key, repo.loc(mod, calls[0]), f"{pos}: {len(calls)} call(s) of {callee}")
         else:
             col.bad("C05.POSITIONS", key, repo.loc(mod, fi.node), f"no call of {callee}", f"the {pos} position no longer goes through {callee}: types there are translated differently or not at all")
+    # ------------------------------------------------------------------ SAME-SUBJECT: the rendered type of an element is
+    # the translator applied to *that element's* type dictionary (no cache / lookup keyed by type equality in between)
+    from .c06 import KINDS, PA, param_obj
+    from .common import find_loops, new_effects, run_body, sym_is
+    from ..core.absint import EnumM
+
+    def type_holes_ok(template: AV, subject: str) -> tuple[bool, str]:
+        """Every translator application in the template is applied to <subject>.type's own to_dict; and the text
+        after ': ' is such an application."""
+        txt = render(template)
+        m = re.search(r": (\{.*?\})(?: = |$)", txt, re.S)
+        calls = apps(template, REC_G)
+        if not calls:
+            return False, f"no translator application in {txt[:120]!r}"
+        for c in calls:
+            a0 = c.args[0] if c.args else None
+            if not (a0 is not None and any(isinstance(x, App) and x.func == ".to_dict" and x.args and mentions(x.args[0], f"{subject}.type") for x in walk_av(a0))):
+                return False, f"translator applied to {a0!r}, not to {subject}.type.to_dict()"
+        return True, ""
+
+    pfi = repo.function(GEN, f"{GENCLS}._create_parameter_string")
+    col.touched(pfi)
+    pit = ctx.interp(pfi)
+    pit.run_function(pfi, {"self": Sym("self"), "parameters": Sym("parameters"), "indentations": Sym("ind"), "is_instance_method": Const(False)}, gen_state())
+    loops = find_loops(pit, pfi, lambda v: sym_is(v, "parameters"))
+    key = f"{GEN}::{GENCLS}._create_parameter_string::type-of-same-parameter"
+    if len(loops) != 1:
+        col.bad("C05.POSITIONS", key, repo.loc(GEN, pfi.node), "loop not found", "parameter loop not found")
+    else:
+        node, _, _, entry = loops[0]
+        probs = []
+        n = 0
+        for kind in KINDS[1:]:
+            p = param_obj("P", assigned_by=EnumM(PA, kind))
+            e = entry.clone()
+            e.neq[repr(Sym("P.type"))] = {Const(None)}
+            for o in run_body(pit, node, e, p):
+                for ef in new_effects(o, entry):
+                    if ef.kind == "mutate" and ef.target.endswith(".append"):
+                        if o.fact("truthy:self._create_type_string(.to_dict(<P.type>))") is False:
+                            continue
+                        n += 1
+                        okh, why = type_holes_ok(ef.args[0], "P")
+                        if not okh:
+                            probs.append(why)
+        if probs or not n:
+            col.bad("C05.POSITIONS", key, repo.loc(GEN, node), f"{probs[:2]}", f"a parameter's rendered type is not the translation of that parameter's own type: {(probs or ['no typed entry'])[0]}")
+        else:
+            col.ok("C05.POSITIONS", key, repo.loc(GEN, node), f"{n} typed entries: ': ' + translator(parameter.type.to_dict())")
+    # attribute position
+    afi = repo.function(GEN, f"{GENCLS}._create_class_attribute_string")
+    ait = ctx.interp(afi)
+    ait.run_function(afi, {"self": Sym("self"), "attributes": Sym("attributes"), "inner_indentations": Sym("ind")}, gen_state())
+    aloops = find_loops(ait, afi, lambda v: sym_is(v, "attributes"))
+    key = f"{GEN}::{GENCLS}._create_class_attribute_string::type-of-same-attribute"
+    if len(aloops) == 1:
+        node, _, _, entry = aloops[0]
+        a = Obj("Attribute", (("is_public", Const(True)), ("type", Sym("A.type")), ("is_static", Sym("A.is_static")), ("name", Sym("A.name")), ("docstring", Sym("A.docstring"))))
+        e = entry.clone()
+        e.neq[repr(Sym("A.type"))] = {Const(None)}
+        probs, n = [], 0
+        for o in run_body(ait, node, e, a):
+            for ef in new_effects(o, entry):
+                if ef.kind == "mutate" and ef.target.endswith(".append") and o.fact("truthy:<A.type>") is not False \
+                        and o.fact("truthy:self._create_type_string(.to_dict(<A.type>))") is not False:
+                    n += 1
+                    okh, why = type_holes_ok(ef.args[0], "A")
+                    if not okh:
+                        probs.append(why)
+        if probs or not n:
+            col.bad("C05.POSITIONS", key, repo.loc(GEN, node), f"{probs[:2]}", f"an attribute's rendered type is not the translation of its own type: {(probs or ['no typed entry'])[0]}")
+        else:
+            col.ok("C05.POSITIONS", key, repo.loc(GEN, node), f"{n} typed entries")
+    # position-specific branch: analysed type arguments are replaced by the unanalysed ones only for explicitly annotated
+    # class-level attributes (NameExpr); constructor-assigned attributes (MemberExpr) keep mypy's analysed arguments
+    cfi = repo.function(VISITOR, "MyPyAstVisitor._create_attribute")
+    col.touched(cfi)
+    key = f"{VISITOR}::MyPyAstVisitor._create_attribute::args-rewrite-position"
+    probs, n = [], 0
+    for cls in ("NameExpr", "MemberExpr"):
+        cit = ctx.interp(cfi)
+        st = State({"self": Sym("self")})
+        outs = cit.run_function(cfi, {"self": Sym("self"), "attribute": Sym("attribute", cls), "unanalyzed_type": Sym("unanalyzed_type"), "is_static": Sym("is_static")}, st)
+        for o in outs:
+            for ef in o.effects:
+                if ef.kind == "store" and ef.target.endswith(".args"):
+                    n += 1
+                    if cls != "NameExpr":
+                        probs.append(f"type arguments overwritten for a {cls} attribute")
+                    elif not any(("is_inferred" in k and v is False) for k, v in ef.conds):
+                        probs.append("type arguments overwritten without testing that the annotation is explicit (not node.is_inferred)")
+    if probs:
+        col.bad("C05.POSITIONS", key, repo.loc(VISITOR, cfi.node), f"{sorted(set(probs))}", f"{sorted(set(probs))[0]}: instance attributes are translated differently from the same annotation elsewhere")
+    else:
+        col.ok("C05.POSITIONS", key, repo.loc(VISITOR, cfi.node), f"{n} rewrite(s) of .args, all under NameExpr and explicit annotation")
     col.assume("agreement with an independent reference translation of arbitrary nested annotations is not decided "
                "(needs mypy's analysis of the annotation text); unanalyzed_type special cases are not decided")
